@@ -18,9 +18,11 @@ import time
 VERIF = os.path.dirname(os.path.dirname(os.path.abspath(__file__)))
 REPO = os.environ.get("VERIF_REPO", "/repo")
 SPECS = os.path.join(VERIF, "specs")
-BUILD = os.path.join(VERIF, ".build")
-EVIDENCE = os.path.join(VERIF, "evidence")
-REPLAYS = os.path.join(VERIF, ".build", "replays")
+# VERIF_REPO / VERIF_BUILD / VERIF_EVIDENCE divert a run to another tree (bin/seedtest2: a scratch worktree with a seeded
+# change applied, its own build directory, evidence thrown away); the registered commands never set them
+BUILD = os.environ.get("VERIF_BUILD", os.path.join(VERIF, ".build"))
+EVIDENCE = os.environ.get("VERIF_EVIDENCE", os.path.join(VERIF, "evidence"))
+REPLAYS = os.path.join(BUILD, "replays")
 GO_TOOLCHAIN = "/root/go/pkg/mod/golang.org/toolchain@v0.0.1-go1.24.9.linux-amd64/bin/go"
 NCPU = os.cpu_count() or 4
 
@@ -54,6 +56,16 @@ def build_vh(tags=("verif",), race=False):
     name = "vh" + "".join("-" + t for t in tags if t != "verif") + ("-race" if race else "")
     out = os.path.join(BUILD, name)
     hdir = os.path.join(VERIF, "harness")
+    if REPO != "/repo":
+        # the harness module names /repo in its replace directive: build a copy that names the other tree
+        src, hdir = hdir, os.path.join(BUILD, "harness-src")
+        shutil.rmtree(hdir, ignore_errors=True)
+        shutil.copytree(src, hdir)
+        gm = os.path.join(hdir, "go.mod")
+        with open(gm) as f:
+            text = f.read()
+        with open(gm, "w") as f:
+            f.write(text.replace("=> /repo", "=> " + REPO))
     gosum = os.path.join(hdir, "go.sum")
     if not os.path.exists(gosum):
         shutil.copy(os.path.join(REPO, "go.sum"), gosum)
@@ -334,8 +346,12 @@ def edge_cover(nodes, init, edges, extend=6):
 
 # ------------------------------------------------- execute / monitor / triage helpers
 
-def execute(vh, cmd, wd, scenarios, seed, name, extra=(), timeout=1800, env=None):
-    """Runs `vh <cmd> --seed S --scenarios file` and returns the recorded trace path."""
+def execute(vh, cmd, wd, scenarios, seed, name, extra=(), timeout=1800, env=None, survive=False):
+    """Runs `vh <cmd> --seed S --scenarios file` and returns the recorded trace path.
+    survive: the library can kill the harness from a goroutine of its own (a panic there cannot be recovered); the
+    trace in flight then gets a Fatal event and the run continues after that scenario (the monitor must know Fatal)."""
+    if survive:
+        return _execute_surviving(vh, cmd, wd, scenarios, seed, name, extra, timeout, env)
     sp = os.path.join(wd, name + ".scenarios.ndjson")
     write_ndjson(sp, scenarios)
     tp = os.path.join(wd, name + ".trace.ndjson")
@@ -350,6 +366,41 @@ def execute(vh, cmd, wd, scenarios, seed, name, extra=(), timeout=1800, env=None
             raise Infra(f"vh {cmd} timed out")
     if p.returncode != 0:
         raise Infra(f"vh {cmd} failed rc={p.returncode}: " + p.stderr[-3000:])
+    return tp
+
+
+def _execute_surviving(vh, cmd, wd, scenarios, seed, name, extra, timeout, env):
+    tp = os.path.join(wd, name + ".trace.ndjson")
+    e = dict(os.environ, VH_SYNC="1")
+    if env:
+        e.update(env)
+    remaining, t_off, restarts = list(scenarios), 0, 0
+    with open(tp, "w") as out:
+        while remaining:
+            sp = os.path.join(wd, f"{name}.{restarts}.scenarios.ndjson")
+            write_ndjson(sp, remaining)
+            try:
+                p = subprocess.run([vh, cmd, "--seed", str(seed), "--scenarios", sp] + list(extra), capture_output=True,
+                                   text=True, timeout=timeout, env=e)
+            except subprocess.TimeoutExpired:
+                raise Infra(f"vh {cmd} timed out")
+            events = [json.loads(ln) for ln in p.stdout.split("\n") if ln.endswith("}")]
+            for ev in events:
+                ev["t"] += t_off
+                out.write(json.dumps(ev, separators=(",", ":")) + "\n")
+            if p.returncode == 0:
+                break
+            died = "panic:" in p.stderr or "fatal error:" in p.stderr
+            restarts += 1
+            if not died or not events or restarts > len(scenarios) + 1:
+                raise Infra(f"vh {cmd} failed rc={p.returncode}: " + p.stderr[-3000:])
+            last = events[-1]
+            reason = [ln for ln in p.stderr.split("\n") if ln.startswith(("panic:", "fatal error:"))][0][:300]
+            out.write(json.dumps({"t": last["t"], "i": last["i"] + 1, "ev": "Fatal", "msg": reason}, separators=(",", ":")) + "\n")
+            sc = [ev["sc"] for ev in events if ev["ev"] == "Init"][-1]
+            idx = [i for i, s in enumerate(remaining) if s["id"] == sc][0]
+            remaining = remaining[idx + 1:]
+            t_off = last["t"]
     return tp
 
 
@@ -410,7 +461,8 @@ class Pipeline:
         self.per_class, self.max_confirm = per_class, max_confirm
 
     def execute(self, vh, wd, scenarios, seed, name):
-        return execute(vh, self.cmd, wd, scenarios, seed, name, extra=self.extra, env=self.env, timeout=getattr(self, "timeout", 1800))
+        return execute(vh, self.cmd, wd, scenarios, seed, name, extra=self.extra, env=self.env, timeout=getattr(self, "timeout", 1800),
+                       survive=getattr(self, "survive", False))
 
     def judge(self, wd, tp):
         return monitor(wd, self.mon[0], self.mon[1], tp, heap=self.heap, jvm=getattr(self, "jvm", ()))
